@@ -1,8 +1,11 @@
 """check.py configuration of C03x (BC7 and BC6H part of C03)."""
 
 CFG = {
-    "claim": "Proof (Lean 4, for every 128-bit block, no sampling) of the decomposition of 'BC7/BC6H blocks decode to the "
-             "specified values': pinned spec partition/anchor/weight tables are well-formed and equal the tables the "
+    "claim": "Proof (Lean 4, for every 128-bit block, no sampling) that the implementation-shaped BC7 and BC6H (signed and "
+             "unsigned) block decoders equal the specification-shaped decoders: bc7_impl_eq_spec and bc6_impl_eq_spec for "
+             "EVERY block (all 8 + 14 modes and the reserved codes), assembled from: fix-up index decompression = anchor "
+             "rule for all 64+64 partitions, per-mode endpoint extraction, consume! sequences = spec field layouts, sign "
+             "extension + delta transform, no i32 overflow in unquantize/interpolate/finish; and of the decomposition: pinned spec partition/anchor/weight tables are well-formed and equal the tables the "
              "code builds from its literals; BC7 mode = trailing zeros, every stream read = positional field read, "
              "promote = bit replication, weights x4 and (256-4w)e0+4w e1+128>>8 = (64-w)e0+w e1+32>>6, low byte 0 -> zero; "
              "BC6H: the 14 header layouts partition the header bits and give each endpoint its declared width, the "
@@ -15,7 +18,8 @@ CFG = {
     "note": "Trusted: Lean kernel + propext/Classical.choice/Quot.sound; the hand-written models Bc7.lean, Bc6.lean, "
             "BcTables.lean; the reading of the D3D11/Khronos specification in Bc7Spec.lean, Bc6Spec.lean and in the "
             "harness oracle; the correspondence check; agreement of code and model off the generated blocks. The "
-            "whole-block equalities bc7_impl_eq_spec / bc6_impl_eq_spec are assembled only in part (see notes/C03x.md).",
+            "whole-block equalities bc7_impl_eq_spec / bc6_impl_eq_spec hold for every block; only half->U16 stays partial "
+            "(four halves, finding F6).",
     "profiles": ["release", "checked"],
     "level": "proof",
     "rule": "cases = table-tie lines (64+64 partition literals, 5 weight tables, 10 BC6H two-region header orders parsed "
